@@ -68,6 +68,9 @@ def explore(ctx, exe, runs):
     return lines, abnormal
 
 
+HARNESS_OF = {"batch": ("batch", "batch.cc"), "provider": ("provider", "provider.cc"), "periodic reader": ("reader", "reader.cc")}
+
+
 def report_abnormal(ctx, abnormal, what, only_if=None):
     for a, rc, out in abnormal:
         ev = []
@@ -80,7 +83,8 @@ def report_abnormal(ctx, abnormal, what, only_if=None):
             continue
         kind = "got stuck (deadlock, or livelock under the fair schedule: a call did not return)" if rc == 3 \
             else "crashed (rc=%s)" % rc
-        ctx.violation("%s: real execution %s; harness args=%s" % (what, kind, a), {"args": a, "events": ev})
+        ctx.violation("%s: real execution %s; harness args=%s" % (what, kind, a),
+                      {"args": a, "harness": HARNESS_OF.get(what, (what, what + ".cc")), "events": ev})
 
 
 def validate(ctx, prop, lines, what, devs=()):
@@ -173,6 +177,16 @@ def model_check_batch(ctx, invariants, expect_violation_with_devs=None, live=Tru
 
 def generic_replay(ctx, path):
     rep = json.load(open(path))["replay"]
+    if "monitor" not in rep and "args" in rep and "harness" in rep:
+        # a stuck / crashed execution: the engine is deterministic, re-run the same harness arguments
+        name, src = rep["harness"]
+        exe = build.harness(name, [src], "shim")
+        lines, abnormal = explore(ctx, exe, [rep["args"]])
+        what = [k for k, v in HARNESS_OF.items() if v[0] == name]
+        report_abnormal(ctx, abnormal, what[0] if what else name)
+        ctx.traces += 1
+        ctx.sample({"kind": "re-run of a stuck/crashed execution", "args": rep["args"], "abnormal": len(abnormal)})
+        return
     if "events" not in rep or "monitor" not in rep:
         raise Broken("replay file has no event log; re-run the check with the recorded seed/args: %s" % rep.get("args"))
     lines = [json.dumps(e) for e in rep["events"]]
